@@ -281,3 +281,7 @@ package lexer
 //@   ensures tokStart(s.Body, fromPosition) < len(s.Body) && isBlockQuoteAt(s.Body, tokStart(s.Body, fromPosition)) && blockScan(s.Body, tokStart(s.Body, fromPosition) + 3) < 0 ==> result1 != nil
 //@   ensures tokStart(s.Body, fromPosition) < len(s.Body) && startsNoToken(tokCode(s.Body, fromPosition)) ==> result1 != nil
 //@   at[C18] call NewSyntaxError: assert arg1 == tokStart(s.Body, fromPosition)
+
+//@ func GetTokenDesc
+//@   trusted
+//@   pure
